@@ -36,6 +36,9 @@ CfgsOne == {BaseCfg}
 CfgsRS == {CfgWith("hmac", rs, 6) : rs \in {<<>>, <<"offline">>}}
 CfgsRSB == {CfgWith("hmac", rs, 6) : rs \in {<<>>, <<"offline">>, <<"b">>}}
 CfgsStrategies == {CfgWith(a, rs, 6) : a \in {"hmac", "jwt"}, rs \in {<<>>, <<"offline">>}}
+(* the code family: refresh tokens that never expire are a configuration of their own on the redemption path *)
+CfgsCode == {CfgWith("hmac", <<"offline">>, lrt) : lrt \in {6, -1}}
+CfgsCodeT == {CfgWith(a, rs, lrt) : a \in {"hmac", "jwt"}, rs \in {<<>>, <<"offline">>}, lrt \in {6, -1}}
 CfgsRefresh == {CfgWith(a, rs, lrt) : a \in {"hmac", "jwt"}, rs \in {<<>>, <<"offline">>, <<"b">>}, lrt \in {6, -1}}
 CfgsPkce == {[BaseCfg EXCEPT !.pkce_all = pa, !.pkce_pub = pp, !.pkce_plain = pl] :
                pa \in BOOLEAN, pp \in BOOLEAN, pl \in BOOLEAN}
@@ -56,6 +59,8 @@ CfgsRSC == WithCopy(CfgsRS)
 CfgsRSBC == WithCopy(CfgsRSB)
 CfgsStrategiesC == WithCopy(CfgsStrategies)
 CfgsRefreshC == WithCopy(CfgsRefresh)
+CfgsCodeC == WithCopy(CfgsCode)
+CfgsCodeTC == WithCopy(CfgsCodeT)
 CfgsPkceC == WithCopy(CfgsPkce)
 CfgsExpiryC == WithCopy(CfgsExpiry)
 CfgsIntrospectC == WithCopy(CfgsIntrospect)
@@ -74,6 +79,8 @@ CanAuthz == Count(st.S.code) < MaxCodes /\ Count(st.S.at) < MaxAT
 CanMint == Count(st.S.at) < MaxAT /\ Count(st.S.rt) < MaxRT
 Full == <<"openid", "offline", "a">>
 TickOps == IF st.now < MaxNow THEN {Tick} ELSE {}
+(* the clock jumps to the end of the modelled time in one step: late states within a short history *)
+JumpOps == IF st.now + 1 < MaxNow THEN {[op |-> "tick", n |-> MaxNow - st.now]} ELSE {}
 
 (* ---- refinement of the family core (FamilyCore.tla, whose invariant Apalache shows inductive) ---- *)
 FCrt == [j \in 1..MaxRT |-> IF ~Has(st.S.rt, j) THEN "free"
@@ -119,7 +126,7 @@ OpsC02 ==   \* client / redirect / lifetime binding; smuggled parameters; grant 
               rd \in {"same", "absent", "diff", "enc"}, xs \in {<<>>, <<"b", "openid">>}, xa \in {<<>>, <<AudB>>}}
          \cup {Redeem("P", "hdr_victim", k, "same", "none", <<>>, <<>>) : k \in Codes} ELSE {})
   \cup (IF CanMint THEN {Refresh(st.S.rt[j].client, "ok", j, <<>>, <<>>) : j \in RTs} ELSE {})
-  \cup TickOps
+  \cup TickOps \cup JumpOps
 
 Verifiers == {"none", "right", "wrong", "short", "long", "illegal", "other"}
 OpsC03 ==   \* PKCE: every sequence of attempts on a code
